@@ -95,6 +95,30 @@ def _cond(ct: Term, pol: bool) -> Term:
     return ("op", "Not", (ct,))
 
 
+def resolve_global_consts(model, t: Term) -> Term:
+    """every ('global', 'pkg.mod.NAME') that a module binds to a literal constant (directly or through re-exports),
+    replaced by that constant: a named constant is its value"""
+    if not isinstance(t, tuple):
+        return t
+    if len(t) == 2 and t[0] == "global" and isinstance(t[1], str):
+        target = t[1]
+        for _ in range(4):
+            mod, _, nm = target.rpartition(".")
+            mi = model.modules.get(mod)
+            if mi is None:
+                break
+            if nm in mi.assigns:
+                if isinstance(mi.assigns[nm], ast.Constant):
+                    return ("const", mi.assigns[nm].value)
+                break
+            if nm in mi.imports:
+                target = mi.imports[nm]
+                continue
+            break
+        return t
+    return tuple(resolve_global_consts(model, x) for x in t)
+
+
 def decision_alternatives(t: Term, conds: Tuple = ()) -> List[Tuple[Tuple, Term]]:
     """[(conditions, alternative)] of a result rendered as a decision tree: conditions are (term, truth value) pairs
     collected along ifexp nodes; a plain phi contributes its alternatives without conditions."""
